@@ -171,7 +171,10 @@ def specAfter (sp : SpecSt) (o : DOp) (s s' : State) : SpecSt :=
   | .fast b => specAfterOp sp (.block b) s s'
   | .blockEv b _ _ => specAfterOp sp (.block b) s s'
   -- the orphan pool does not survive a restart: what was only pooled is no longer delivered
-  | .restart => { sp with delivered := sp.delivered.filter (fun x => (s'.status x.hash).data) }
+  -- likewise header-only nodes are not persisted (by design, for compatibility with older versions): a
+  -- manual invalidation of such a node is forgotten together with the node
+  | .restart => { sp with delivered := sp.delivered.filter (fun x => (s'.status x.hash).data),
+                          excl := sp.excl.filter (fun h => (lookup s'.idx h).isSome) }
 
 def specOk (sp : SpecSt) (s : State) : Bool :=
   Spec.bestWork sp.delivered sp.excl == s.wsum s.tip
